@@ -13,11 +13,17 @@ package kit
 //@   modifies nothing
 //@   ensures imp(result1 == nil, result0 != nil)
 // building from a file: everything below is under contract only down to the scanning phase (see C01 in MANIFEST)
+// gOptArr / gOptLen (ghost): the option list a core was built with (C19: the options a caller gives reach the core;
+// a path-based build applies the same options as an in-memory build)
+//@ ghost field core.JApiCore.gOptArr int
+//@ ghost field core.JApiCore.gOptLen int
 //@ func NewJApiFromFile(file, oo)
 //@   attr trusted
 //@   requires[C01,@root-file] file != nil
 //@   modifies anything
+//@   ensures result0.core != nil && result0.core.gOptArr == oo.arr && result0.core.gOptLen == len(oo)
 
 //@ func NewJapi(filepath, oo)
-//@   property C01,C07
+//@   property C01,C07,C19
 //@   modifies anything
+//@   ensures[C19,@options-forwarded] imp(result1 == nil, result0.core != nil && result0.core.gOptArr == oo.arr && result0.core.gOptLen == len(oo))
